@@ -263,6 +263,47 @@ def relational(F, mon):
                 continue                   # rejecting the spelling is allowed
             if st0 != "ok" or not views_equal(view(r), view(r0)):
                 F.add("form_" + cname.split()[0].replace("t[name]", "index").replace("t[(names)]", "index"), case, view(r), view(r0) if st0 == "ok" else "the outcome for the column object")
+    # a key handed over as a VECTOR is used as given - also when it carries the name of a column of the table and other values
+    # (a computed key such as -t.k2 or t.k2.fillna(0) keeps its source's name)
+    base = {"k2": [3, 1, 2, 1, 3], "val": [10, 20, 30, 40, 50]}
+    for dname, derive in (("-t.k2", lambda t: -t.k2), ("t.k2 % 2", lambda t: t.k2 % 2), ("t.k2[::-1]", lambda t: t.k2[::-1]),
+                          ("Vector(other values, name='k2')", lambda t: Vector([5, 4, 3, 2, 1], name="k2")), ("t.k2 * 0", lambda t: t.k2 * 0)):
+        t = Table({k: list(v) for k, v in base.items()})
+        dv = derive(t)
+        dv.name = "k2"                     # (arithmetic drops names; a caller may well put the name back)
+        dvals = list(dv)
+        t_ref = Table({"k2": list(dvals), "val": list(base["val"])})      # the same table with the derived values stored in the column
+        for cname, call, ref in (("sort_by", lambda tt, k: [list(c) for c in tt.sort_by(k).cols()][1], lambda: [list(c) for c in t_ref.sort_by("k2").cols()][1]),
+                                 ("aggregate", lambda tt, k: [list(c) for c in tt.aggregate(over=k, sum_over="val").cols()], lambda: [list(c) for c in t_ref.aggregate(over="k2", sum_over="val").cols()]),
+                                 ("window", lambda tt, k: [list(c) for c in tt.window(over=k, sum_over="val").cols()][1], lambda: [list(c) for c in t_ref.window(over="k2", sum_over="val").cols()][1]),
+                                 ("join", lambda tt, k: [list(c) for c in tt.join(Table({"j": [0, 1, 2, 3, 4, 5, -1, -2, -3], "z": list(range(9))}), k, "j", expect="many_to_one").cols()][-1],
+                                  lambda: [list(c) for c in t_ref.join(Table({"j": [0, 1, 2, 3, 4, 5, -1, -2, -3], "z": list(range(9))}), "k2", "j", expect="many_to_one").cols()][-1])):
+            st, r, e = attempt(lambda: call(t, dv))
+            st0, r0, e0 = attempt(ref)
+            ex += 1
+            if st0 != "ok":
+                continue
+            if st != "ok" or not views_equal(r, r0):
+                F.add("form_" + cname, {"call": cname, "key": dname + " (a vector named like the column 'k2')"}, r if st == "ok" else type(e).__name__, r0)
+    # where the expectation holds, the result is THE join - the same table (cells, names, dtypes) under every expect word
+    def _named(v, nm):
+        v = v.copy()
+        v.name = nm
+        return v
+    left = Table([Vector([1, 2, 3], name="k"), _named(Vector([5, None, 7, 9])[[True, False, True, True]], "n"), Vector([1, 2, 3], dtype=float, name="f"),
+                  _named(Vector([1, 2, 3]).to_object(), "o")])
+    right = Table({"k": [1, 2, 3], "z": ["a", "b", "c"]})
+    for m in ("inner_join", "join", "full_join"):
+        views = {}
+        for w in ("one_to_one", "many_to_one", "one_to_many", "many_to_many"):
+            st, r, e = attempt(lambda: getattr(left, m)(right, "k", "k", expect=w))
+            ex += 1
+            if st == "ok":
+                views[w] = table_view(r)
+        ref_w = "many_to_many"
+        for w, v in views.items():
+            if ref_w in views and not views_equal(v, views[ref_w]):
+                F.add("form_join", {"call": m, "expect": w, "compared with expect": ref_w}, v, views[ref_w])
     return ex
 
 
@@ -454,6 +495,8 @@ def held_views(F, mon):
     derivs = {
         "t[1] (unread Row)": (lambda t: t[1], lambda g: list(rows_of(g)[1])),
         "t[-1]": (lambda t: t[-1], lambda g: list(rows_of(g)[2])),
+        # a held row answers by field name as it did when it was taken, whatever the table's columns are called later
+        "t[1] read by field names": (lambda t: (lambda r=t[1]: [r.a, r.b, r["a"], list(r)]), lambda g: [g["a"][1], g["b"][1], g["a"][1], rows_of(g)[1]]),
         "[t[i] for i] (all rows held)": (lambda t: [t[i] for i in range(3)], lambda g: rows_of(g)),
         # (not list(iter(t)): the iterator of the pinned tree deliberately re-points ONE Row object - "no object creation in the
         #  loop" - so rows kept from one iteration all show the last row; the statement compares rows as they are obtained)
@@ -502,9 +545,14 @@ def held_views(F, mon):
         "t.a = new column": (lambda t: setattr(t, "a", [7, 8, 9]), lambda g: g.__setitem__("a", [7, 8, 9])),
         "t[:, 'o'] = 0": (lambda t: t.__setitem__((slice(None), "o"), 0), lambda g: g.__setitem__("o", [0, 0, 0])),
         "t.o[0] = 'zero'": (lambda t: t.o.__setitem__(0, "zero"), lambda g: g["o"].__setitem__(0, "zero")),
+        "rename_column a -> z": (lambda t: t.rename_column("a", "z"), None),
+        "rename_columns a <-> b": (lambda t: t.rename_columns(["a", "b"], ["b", "a"]), None),
+        "t['a'].name = 'z'": (lambda t: setattr(t["a"], "name", "z"), None),
     }
 
     def look(obj):
+        if callable(obj) and not isinstance(obj, Vector):
+            return obj()
         if isinstance(obj, list):
             return [look(x) for x in obj]
         if isinstance(obj, Table):
@@ -526,9 +574,13 @@ def held_views(F, mon):
             case = {"derived by": dname, "then written": wname}
             if expect is not None:
                 exp = expect(grid)
-                got = look(d)
-                if not views_equal(got, exp):
+                stl, got, el = attempt(lambda: look(d))
+                if stl != "ok":
+                    F.add("derived_independent", case, "reading the derived object raised " + type(el).__name__ + ": " + str(el)[:80], exp)
+                elif not views_equal(got, exp):
                     F.add("derived_independent", case, got, exp)
+            if gwrite is None:
+                continue                    # a rename: nothing to re-derive by the old names
             # derive again: the new cells, truthful dtypes
             gwrite(grid)
             st, d2, e = attempt(lambda: derive(t))
@@ -577,6 +629,29 @@ def held_views(F, mon):
                     F.add("derived_independent", case, {"the twin derivation changed": look(y)}, snap)
         if not views_equal(table_view(t), before):
             F.add("derived_independent", case, {"writing the derived object changed the source": table_view(t)}, before)
+    # the same derivation before and after a write whose new value COLLIDES with the old one under hash() (-1 / -2, 0 / 2**61-1):
+    # whatever the first derivation left behind (a memo validated by a fingerprint), the second shows the current cells
+    for old_v, new_v in ((-1, -2), (-2, -1), (0, 2 ** 61 - 1), (-1.0, -2.0)):
+        for dname, (derive, expect) in derivs.items():
+            cells = {"a": [old_v, 5, 7], "b": ["p", "q", "r"], "o": [1, "x", 2.5]}
+            t = Table({k: list(v) for k, v in cells.items()})
+            st, d0, e = attempt(lambda: look(derive(t)))
+            if st != "ok":
+                continue
+            for wname, write in (("t[0, 'a'] = v", lambda: t.__setitem__((0, "a"), new_v)), ("t.a[0] = v", lambda: t.a.__setitem__(0, new_v))):
+                t = Table({k: list(v) for k, v in cells.items()})
+                attempt(lambda: look(derive(t)))
+                attempt(lambda: t.fingerprint())
+                st, _, e = attempt(write)
+                if st != "ok":
+                    continue
+                cur = {"a": [new_v, 5, 7], "b": ["p", "q", "r"], "o": [1, "x", 2.5]}
+                st1, d1, e1 = attempt(lambda: look(derive(t)))
+                st2, d2, e2 = attempt(lambda: look(derive(Table({k: list(v) for k, v in cur.items()}))))
+                ex += 1
+                if st1 != st2 or (st1 == "ok" and not views_equal(d1, d2)):
+                    F.add("derived_current", {"derived by": dname, "twice, with in between": wname, "old / new value": [old_v, new_v]},
+                          d1 if st1 == "ok" else type(e1).__name__, d2 if st2 == "ok" else type(e2).__name__)
     # homogeneous tables: a row has a dtype of its own (<int>); a promoting / None write must be visible in the dtype of every
     # row (and slice of a row) taken afterwards, whatever was read before
     from datetime import datetime as _dtm
